@@ -106,3 +106,136 @@ def replay_h_open_directory(s0, s1, s2, s3, s4, give_root):
         return False, "directory read as the concatenation of its files"
     finally:
         shutil.rmtree(d, ignore_errors=True)
+
+
+# --------------------------------------------------------------------- locating the footer of a file ---
+class _Magic:
+    def __eq__(self, other):
+        return other == b"PAR1"
+
+    def __ne__(self, other):
+        return not self.__eq__(other)
+
+    __hash__ = None
+
+
+class _LenField:
+    def __init__(self, value):
+        self.value = value
+
+
+class _Bytes:
+    """an extent [lo, hi) of the file; slicing follows bytes semantics"""
+
+    def __init__(self, lo, hi):
+        self.lo, self.hi = lo, hi
+
+    def __len__(self):
+        return self.hi - self.lo
+
+    def __getitem__(self, k):
+        n = self.hi - self.lo
+        a = 0 if k.start is None else (k.start if k.start >= 0 else n + k.start)
+        b = n if k.stop is None else (k.stop if k.stop >= 0 else n + k.stop)
+        a = min(max(a, 0), n)
+        b = min(max(b, a), n)
+        return _Bytes(self.lo + a, self.lo + b)
+
+
+class _HFile:
+    """a parquet file of `size` bytes: magic at both ends, the 4-byte footer length before the last magic"""
+
+    def __init__(self, size, footer, good_magic):
+        self.size, self.footer, self.pos, self.good = size, footer, 0, good_magic
+
+    def seek(self, off, whence=0):
+        self.pos = off if whence == 0 else (self.pos + off if whence == 1 else self.size + off)
+        if self.pos < 0:
+            raise OSError("negative seek")
+        return self.pos
+
+    def read(self, n=-1):
+        lo = self.pos
+        hi = self.size if n is None or n < 0 else min(self.size, lo + n)
+        hi = max(hi, lo)
+        self.pos = hi
+        if (lo, hi) in ((0, 4), (self.size - 4, self.size)):
+            return _Magic() if self.good else b"XXXX"
+        if (lo, hi) == (self.size - 8, self.size - 4):
+            return _LenField(self.footer)
+        return _Bytes(lo, hi)
+
+
+class _Struct:
+    error = ValueError
+
+    @staticmethod
+    def unpack(fmt, b):
+        if isinstance(b, _LenField):
+            return (b.value,)
+        raise ValueError("length field read from the wrong place")
+
+
+def h_parse_header(data_len: int, footer: int, is_md: bool, verify: bool, good_magic: bool) -> bool:
+    """
+    pre: 0 <= data_len <= 1 << 40 and 1 <= footer <= 1 << 31
+    post: __return__
+    """
+    # a file `PAR1 <data> <footer> <len32> PAR1` (for a _metadata file the data part is empty): the bytes handed to the
+    # thrift parser are exactly the footer; with verify=True bad magic bytes are refused
+    size = 4 + (0 if is_md else data_len) + footer + 8
+    f = _HFile(size, footer, good_magic)
+    pf = object.__new__(api.ParquetFile)
+    pf.__dict__.update(fn="d/_metadata" if is_md else "d/part.0.parquet", pandas_nulls=True, _base_dtype=None, tz=None,
+                       _columns_dtype=None)
+    seen = []
+
+    def from_buffer(data, name):
+        seen.append((data.lo, data.hi))
+        schema = [parquet_thrift.SchemaElement(name="schema", num_children=1),
+                  parquet_thrift.SchemaElement(name="x", type=2, repetition_type=0)]
+        return parquet_thrift.FileMetaData(version=1, schema=schema, row_groups=[], num_rows=0, created_by=b"other")
+    saved = (api.from_buffer, api.struct)
+    api.from_buffer, api.struct = from_buffer, _Struct
+    try:
+        try:
+            pf._parse_header(f, verify)
+        except api.ParquetException:
+            # refusing is right only for a data file whose magic bytes are wrong and verification was requested
+            return verify and not good_magic and not is_md
+    finally:
+        api.from_buffer, api.struct = saved
+    if verify and not good_magic and not is_md:
+        return False
+    return seen == [(size - 8 - footer, size - 8)] and pf._head_size == footer
+
+
+def replay_h_parse_header(data_len, footer, is_md, verify, good_magic):
+    import io
+    import pandas as pd
+    import fastparquet
+    buf = io.BytesIO()
+    df = pd.DataFrame({"x": list(range(min(max(data_len, 1), 50)))})
+
+    class _Keep(io.BytesIO):
+        def close(self):
+            pass
+    mem = _Keep()
+    fastparquet.write(mem, df)
+    raw = bytearray(mem.getvalue())
+    if not good_magic:
+        raw[:4] = b"XXXX"
+    try:
+        pf = fastparquet.ParquetFile(io.BytesIO(bytes(raw)), verify=verify)
+        out = pf.to_pandas()
+    except fastparquet.util.ParquetException:
+        if verify and not good_magic:
+            return False, "refused"
+        return True, "a well-formed file is refused (verify=%r)" % verify
+    except Exception as ex:
+        return True, "file cannot be opened: %s: %s" % (type(ex).__name__, str(ex)[:80])
+    if verify and not good_magic:
+        return True, "a file with wrong magic bytes is accepted although verify=True"
+    if list(out["x"]) != list(df["x"]):
+        return True, "footer located wrongly: data differs"
+    return False, "footer located"
